@@ -69,6 +69,7 @@ class ExecMixin:
         fn = self.ext.node
         st = State()
         self.written = set()
+        self.decl_types = dict((k, v) for k, v in self.con.types.items() if not k.startswith(("^", ".")))
         self.loops = self.index_loops(fn)
         args = fn.args
         names = [a.arg for a in args.posonlyargs + args.args]
@@ -84,6 +85,7 @@ class ExecMixin:
             sv = self.typed(st, t, ty)
             st.assume(z3.Implies(smt.is_ref(t), Val.r(t) < st.alloc))
             st.locals[a] = sv
+            self.decl_types[a] = ty
         if args.vararg:
             a = args.vararg.arg
             t = z3.Const(f"arg.{a}", Val)
@@ -350,6 +352,24 @@ class ExecMixin:
                 return chain(0, st)
         if isinstance(e, ast.UnaryOp) and isinstance(e.op, ast.Not):
             return self.ev_cond(e.operand, st, kf, kt)
+        # `x is None` / `x is not None` on a local declared `T | none`: the non-None side gets the static hint T
+        if (isinstance(e, ast.Compare) and len(e.ops) == 1 and isinstance(e.ops[0], (ast.Is, ast.IsNot)) and isinstance(e.left, ast.Name)
+                and isinstance(e.comparators[0], ast.Constant) and e.comparators[0].value is None and e.left.id in st.locals):
+            name = e.left.id
+            decl = self.decl_types.get(name)
+            alts = [a for a in TypeSpec(decl).alts if a != "none"] if decl else []
+            if len(alts) == 1 and alts[0] != "any":
+                def refine(k):
+                    def k2(s1):
+                        cur = s1.locals.get(name)
+                        if cur is not None and cur.ty is None:
+                            s1.locals[name] = self.typed(s1, cur.t, alts[0])
+                        return k(s1)
+                    return k2
+                if isinstance(e.ops[0], ast.IsNot):
+                    kt = refine(kt)
+                else:
+                    kf = refine(kf)
         return self.ev(e, st, lambda st1, v: self.branch(st1, self.truthy(st1, v), kt, kf))
 
     def loop_spec(self, node):
@@ -601,6 +621,13 @@ class ExecMixin:
                 outs = []
                 for o in self.assign_target(s.target, el, bst, s):
                     if o.kind == "next":
+                        for tn in tnames:
+                            ty = self.con.types.get(tn)
+                            if ty is not None and tn in o.st.locals:
+                                # declared loop-variable type: proved, then used as a static hint
+                                tv = o.st.locals[tn]
+                                self.oblige(o.st, self.type_fact(tv.t, ty), "type", s, f"loop variable {tn} has type {ty}")
+                                o.st.locals[tn] = self.typed(o.st, tv.t, ty)
                         outs += run_body(o.st)
                     else:
                         outs.append(o)
